@@ -90,8 +90,8 @@ def average_mutual_information(cellular_automaton, temporal_distance=1):
     :return: a real number representing the average mutual information between a cell and itself at the next time step,
              in bits
     """
-    num_cols = cellular_automaton.shape[1]
-    if not (0 < temporal_distance < num_cols):
+    num_timesteps, num_cols = cellular_automaton.shape[0], cellular_automaton.shape[1]
+    if not (0 < temporal_distance < num_timesteps):
         raise ValueError("the temporal distance must be greater than 0 and less than the number of time steps")
     mutual_informations = []
     for i in range(0, num_cols):
